@@ -357,9 +357,9 @@ def logicalLM (d : Doc) : Option Nat :=
   | none => d.gen.map (·.ts)
 
 /-- the e_tag recipe of a put / multipart commit; whether the per-commit seed is hashed in is read
-from the source (`Gen.SidecarOrder.putTagSeeded`) -/
-def mkPutTok (fl : Gen.SidecarOrder.Wrapper) (g : Gen) (data : Bytes) : Tok :=
-  .put (if Gen.SidecarOrder.putTagSeeded fl then g.id + 1 else 0) data
+from the source (`Gen.SidecarOrder.putTagSeeded` / `completeTagSeeded`) -/
+def mkPutTok (seeded : Bool) (g : Gen) (data : Bytes) : Tok :=
+  .put (if seeded then g.id + 1 else 0) data
 
 /-- `derive_copy_e_tag` -/
 def mkCopyTok (g : Gen) (src : Option Tok) : Tok :=
@@ -555,8 +555,8 @@ def Cur.doc? : Cur → Option Doc
   | _ => none
 
 /-- commit of a freshly written payload (`put_opts`, multipart `complete`) -/
-def planWrite (w : W) (order : List Gen.SidecarOrder.CommitPhase) (now : Nat) (k : Path) (mode : PutMode)
-    (data : Bytes) : Plan :=
+def planWrite (w : W) (order : List Gen.SidecarOrder.CommitPhase) (seeded : Bool) (now : Nat) (k : Path)
+    (mode : PutMode) (data : Bytes) : Plan :=
   let g : Gen := ⟨now, w.nextId⟩
   let cur := curOf w.be k
   let create := decide (mode = .create)
@@ -573,7 +573,7 @@ def planWrite (w : W) (order : List Gen.SidecarOrder.CommitPhase) (now : Nat) (k
       match pre with
       | .error e => { steps := [], cache := w.cache, out := .err e }
       | .ok () =>
-          let d : Doc := { size := data.length, etag := some (mkPutTok w.flavor g data), gen := some g, time := some now }
+          let d : Doc := { size := data.length, etag := some (mkPutTok seeded g data), gen := some g, time := some now }
           let replaced := cur.doc?.map (fun c => payloadPath k c.gen)
           { steps := commitSteps order [.putBlob (.gen k g) data] (.putDoc k d) (reclaimOf replaced k d),
             cache := aset w.cache k d,
@@ -635,8 +635,8 @@ def copySteps (w : W) (now : Nat) (src dst : Path) (create : Bool) : List Step :
 
 /-- One call on the wrapper. -/
 def wStep (w : W) (now : Nat) : Call → W × Out
-  | .put k mode data => runPlan w now (planWrite w (Gen.SidecarOrder.putOrder w.flavor) now k mode data) 1
-  | .mput k parts => runPlan w now (planWrite w (Gen.SidecarOrder.completeOrder w.flavor) now k .overwrite (concatParts parts)) 1
+  | .put k mode data => runPlan w now (planWrite w (Gen.SidecarOrder.putOrder w.flavor) (Gen.SidecarOrder.putTagSeeded w.flavor) now k mode data) 1
+  | .mput k parts => runPlan w now (planWrite w (Gen.SidecarOrder.completeOrder w.flavor) (Gen.SidecarOrder.completeTagSeeded w.flavor) now k .overwrite (concatParts parts)) 1
   | .get k o => readLoop w k (fun be d => getAttempt be k d o)
   | .getRanges k rs =>
       if rs.isEmpty then (w, .ranges []) else readLoop w k (fun be d => rangesAttempt be k d rs)
@@ -646,12 +646,12 @@ def wStep (w : W) (now : Nat) : Call → W × Out
       | (.error e, w1) => (w1, .err e)
       | (.ok (d, p), w1) => runPlan w1 now (planCopyCommit w1 w1.cache now d p dst create) 1
   | .rename src dst create =>
-      if src = dst then
+      if (Gen.SidecarOrder.selfRenameGuard w.flavor && decide (src = dst)) = true then
         -- `check_self_rename`
         match getMeta w src with
         | (.error e, w1) => (w1, .err e)
         | (.ok _, w1) => if create then (w1, .err .exists) else (w1, .unit)
-      else
+      else if Gen.SidecarOrder.renameOrder w.flavor = [.copy, .deleteSource] then
         match resolveSource w src with
         | (.error e, w1) => (w1, .err e)
         | (.ok (d, p), w1) =>
@@ -664,18 +664,24 @@ def wStep (w : W) (now : Nat) : Call → W × Out
                 match o3 with
                 | .err .notFound => (w3, .unit)
                 | o3 => (w3, o3)
+      else
+        -- source deleted first: the copy then finds nothing to copy
+        let (w1, o1) := runPlan w now (planDelete w w.cache w.be src) 0
+        match o1 with
+        | .err e => (w1, .err e)
+        | _ => (w1, .err .notFound)
   | .list pre offset => (w, .listed (wList w pre offset))
   | .listDelim pre => let p := wListDelim w pre; (w, .listedDelim p.1 p.2)
 
 /-- the backend steps a call performs, in order (what FaultStore counts and a crash cuts) -/
 def stepsOf (w : W) (now : Nat) : Call → List Step
-  | .put k mode data => (planWrite w (Gen.SidecarOrder.putOrder w.flavor) now k mode data).steps
-  | .mput k parts => (planWrite w (Gen.SidecarOrder.completeOrder w.flavor) now k .overwrite (concatParts parts)).steps
+  | .put k mode data => (planWrite w (Gen.SidecarOrder.putOrder w.flavor) (Gen.SidecarOrder.putTagSeeded w.flavor) now k mode data).steps
+  | .mput k parts => (planWrite w (Gen.SidecarOrder.completeOrder w.flavor) (Gen.SidecarOrder.completeTagSeeded w.flavor) now k .overwrite (concatParts parts)).steps
   | .delete k => (planDelete w w.cache w.be k).steps
   | .copy src dst create => copySteps w now src dst create
   | .rename src dst create =>
-      if src = dst then []
-      else
+      if (Gen.SidecarOrder.selfRenameGuard w.flavor && decide (src = dst)) = true then []
+      else if Gen.SidecarOrder.renameOrder w.flavor = [.copy, .deleteSource] then
         match resolveSource w src with
         | (.error _, _) => []
         | (.ok (d, p), w1) =>
@@ -685,6 +691,7 @@ def stepsOf (w : W) (now : Nat) : Call → List Step
             | _ =>
                 let be2 := applySteps now w1.be pl.steps
                 pl.steps ++ (planDelete w1 pl.cache be2 src).steps
+      else (planDelete w w.cache w.be src).steps
   | _ => []
 
 /-! ### cold reads and the abstraction -/
@@ -701,9 +708,128 @@ def readCold (be : Backend) (k : Path) : Option REnt :=
   | some ⟨.doc d, _⟩ => resolveDoc be k d
   | _ => none
 
+/-! ### garbage collection (`collect_garbage`), run with no concurrent writer -/
+
+/-- what a commit point says about its key's payload (mark phase) -/
+inductive PayloadRef where
+  | gen (g : Gen)
+  | legacy
+  | unknown
+  deriving DecidableEq, Repr
+
+def markRef (be : Backend) (k : Path) : Option PayloadRef :=
+  match aget be (.mt k) with
+  | none => none
+  | some ⟨.doc d, _⟩ => some (match d.gen with | some g => .gen g | none => .legacy)
+  | some _ => some .unknown
+
+/-- sweep: is the payload object at `p` a candidate, given the marked commit points of `be`? -/
+def isCandidate (be : Backend) (floor : Nat) (p : BPath) : Bool :=
+  match p with
+  | .gen k g =>
+      if Gen.SidecarOrder.gcFloorSkip && decide (g.ts ≥ floor) then false
+      else
+        match markRef be k with
+        | some (.gen g') => decide (g' ≠ g)
+        | some .unknown => false
+        | _ => true
+  | .data k =>
+      match markRef be k with
+      | some .legacy => false
+      | some .unknown => false
+      | _ => true
+  | .mt _ => false
+
+def gcCandidates (be : Backend) (floor : Nat) : List BPath :=
+  (be.map (·.1)).filter (isCandidate be floor)
+
+/-- `is_referenced`: does the key's *current* commit point reference this payload? -/
+def isReferenced (be : Backend) (p : BPath) : Bool :=
+  match p with
+  | .gen k g =>
+      match aget be (.mt k) with
+      | none => false
+      | some ⟨.doc d, _⟩ => decide (d.gen = some g)
+      | some _ => true
+  | .data k =>
+      match aget be (.mt k) with
+      | none => false
+      | some ⟨.doc d, _⟩ => decide (d.gen = none)
+      | some _ => true
+  | .mt _ => true
+
+def isInFlight (inflight : List (Path × Gen)) (p : BPath) : Bool :=
+  match p with
+  | .gen k g => inflight.contains (k, g)
+  | _ => false
+
+/-- one candidate of the sweep, the three checks in the order read from the source;
+returns the backend and whether an object was deleted -/
+def gcCandidateStep (inflight : List (Path × Gen)) (be : Backend) (p : BPath) : Backend × Nat :=
+  let r := Gen.SidecarOrder.gcCandidateOrder.foldl
+    (fun (acc : Bool × Backend × Nat) ch =>
+      let (skip, be, n) := acc
+      if skip then acc
+      else
+        match ch with
+        | .inFlight => (isInFlight inflight p, be, n)
+        | .recheck => (isReferenced be p, be, n)
+        | .delete => (true, adel be p, if (aget be p).isSome then n + 1 else n))
+    (false, be, 0)
+  (r.2.1, r.2.2)
+
+def gcSweep (inflight : List (Path × Gen)) : Backend → List BPath → Backend × Nat
+  | be, [] => (be, 0)
+  | be, p :: ps =>
+      let (be1, n1) := gcCandidateStep inflight be p
+      let (be2, n2) := gcSweep inflight be1 ps
+      (be2, n1 + n2)
+
+/-- `collect_garbage` with no concurrent writer; `now` is the clock when it starts (the floor) -/
+def gcRun (w : W) (now : Nat) : W × Nat :=
+  let r := gcSweep w.inflight w.be (gcCandidates w.be now)
+  ({ w with be := r.1 }, r.2)
+
 def W.init : W := { be := [] }
 
 /-- a fresh wrapper instance over the same backend (cold cache, empty in-flight registry) -/
 def W.reopen (w : W) : W := { flavor := w.flavor, be := w.be, cache := [], inflight := [], nextId := w.nextId }
+
+/-- An object of the pre-0.10 layout put into the backend by an older deployment: payload at
+`data/<k>`, then a metadata document without generation and without commit time at `meta/<k>`; the
+wrapper is opened afterwards (cold cache). -/
+def legacyPut (w : W) (now : Nat) (k : Path) (data : Bytes) (tok : Tok) : W :=
+  { w with
+    be := aset (aset w.be (.data k) ⟨.blob data, now⟩) (.mt k)
+      ⟨.doc { size := data.length, etag := some tok, gen := none, time := none }, now + 1⟩,
+    cache := [], inflight := [] }
+
+/-! ### histories: calls, re-opens, crashes -/
+
+inductive Event where
+  /-- a completed call at clock reading `now` -/
+  | call (now : Nat) (c : Call)
+  /-- a new wrapper instance over the same backend -/
+  | reopen
+  /-- the process dies after the first `n` backend steps of the call; restart with a cold cache -/
+  | crash (now : Nat) (c : Call) (n : Nat)
+  /-- `collect_garbage` started at clock reading `now` (no concurrent writer) -/
+  | gc (now : Nat)
+  /-- a legacy (pre-0.10) object appears behind the wrapper's back, the wrapper is re-opened -/
+  | legacy (now : Nat) (k : Path) (data : Bytes) (tok : Tok)
+  deriving Repr
+
+/-- the wrapper a restart builds over what survived -/
+def crashState (w : W) (now : Nat) (c : Call) (n : Nat) : W :=
+  { flavor := w.flavor, be := applyPrefix now w.be (stepsOf w now c) n, cache := [], inflight := [], nextId := w.nextId + 1 }
+
+def runEvent (w : W) : Event → W
+  | .call now c => (wStep w now c).1
+  | .reopen => w.reopen
+  | .crash now c n => crashState w now c n
+  | .gc now => (gcRun w now).1
+  | .legacy now k data tok => legacyPut w now k data tok
+
+def run (w : W) (es : List Event) : W := es.foldl runEvent w
 
 end AndaVerif.ObjStore
